@@ -275,9 +275,13 @@ def c09c(ctx):
         ctx.check(okall, fn.short + ':layer-name-is-key', 'the requested layer name is only used as a dictionary key of self.layers', fn)
 
 
-def _only_key_use(x, defs, fn):
+def _only_key_use(x, defs, fn, _seen=None):
     """the expression containing x ends up as: `k in self.layers`, `self.layers[k]`, `self.layers.get(k)`, a local that
     is used that way, or an error message"""
+    _seen = set() if _seen is None else _seen
+    if id(x) in _seen:
+        return True         # already being judged (a name rebuilt from itself: `name = name + ..`)
+    _seen.add(id(x))
     top = x
     par = getattr(top, '_parent', None)
     while isinstance(par, (ast.BinOp, ast.Tuple)):
@@ -285,7 +289,17 @@ def _only_key_use(x, defs, fn):
     if isinstance(par, ast.Assign) and isinstance(par.targets[0], ast.Name):
         name = par.targets[0].id
         uses = [n for n in fn.walk() if isinstance(n, ast.Name) and n.id == name and isinstance(n.ctx, ast.Load)]
-        return all(_only_key_use(u, defs, fn) for u in uses)
+        return all(_only_key_use(u, defs, fn, _seen) for u in uses)
+    if isinstance(par, (ast.GeneratorExp, ast.ListComp)) and par.elt is top:
+        # the candidates derived from the name: judged where the sequence is consumed
+        return _only_key_use(par, defs, fn, _seen)
+    if isinstance(par, ast.For) and par.iter is top and isinstance(par.target, ast.Name):
+        uses = [n for n in ast.walk(par) if isinstance(n, ast.Name) and n.id == par.target.id and isinstance(n.ctx, ast.Load)]
+        return bool(uses) and all(_only_key_use(u, defs, fn, _seen) for u in uses)
+    if isinstance(par, ast.comprehension) and par.iter is top and isinstance(par.target, ast.Name):
+        comp = getattr(par, '_parent', None)
+        uses = [n for n in ast.walk(comp) if isinstance(n, ast.Name) and n.id == par.target.id and isinstance(n.ctx, ast.Load)] if comp is not None else []
+        return bool(uses) and all(_only_key_use(u, defs, fn, _seen) for u in uses)
     if isinstance(par, ast.Compare) and any(isinstance(o, ast.In) for o in par.ops):
         return True
     if isinstance(par, ast.Subscript) and par.slice is top:
